@@ -391,7 +391,13 @@ class RVData:
         """
         if t_ref is None:
             t_ref = self.t_ref
-        return ((self.t - t_ref) / P) % 1.0
+
+        if t_ref is None:
+            # no reference epoch (t_ref=False): times are relative to BMJD 0
+            dt = (self._t_bmjd - self._t_ref_bmjd) * u.day
+        else:
+            dt = self.t - t_ref
+        return (dt / P) % 1.0
 
     @deprecated_renamed_argument("phase_fold", "phase_fold_period", "v1.3")
     def plot(
